@@ -263,8 +263,8 @@ def find_item(items: List[Item], selector: str) -> Item:
     cur = items
     found = None
     for seg in segs:
-        kind, _, name = seg.partition(' ')
-        name = norm(name)
+        mm = re.match(r'([a-z_]+)\s*(.*)$', seg, re.S)
+        kind, name = mm.group(1), norm(mm.group(2))
         cands = [it for it in cur if it.kind == kind and it.name == name]
         if len(cands) != 1:
             raise KeyError('anchor %r: %d matches for segment %r' % (selector, len(cands), seg))
